@@ -76,10 +76,11 @@ variable {r : RMod} {bbs : List BBox}
 theorem nodeSpec_name (h : Restricted r bbs) {t0 t1 n : Name} {a : Option String × Bool}
     (hs : NodeSpec r bbs t0 t1 n a) :
     n ∉ ["tie0", "tie1", "tie_0", "tie_1", "tie_x"] ∨ n = t0 ∨ n = t1 := by
-  rcases hs with ⟨t, ht, _⟩ | ⟨rfl, _⟩ | ⟨rfl, _⟩
+  rcases hs with ⟨t, ht, _⟩ | ⟨rfl, _⟩ | ⟨rfl, _⟩ | ⟨hfl, _⟩
   · exact Or.inl (defTy_not_tie (RL.of_restricted h) ht)
   · exact Or.inr (Or.inl rfl)
   · exact Or.inr (Or.inr rfl)
+  · exact Or.inl (floating_plain h.stmts hfl).2.2.2.2
 
 theorem nodeSpec_rename (h : Restricted r bbs) {n : Name} {a : Option String × Bool} (hn : NoUS n) :
     NodeSpec r bbs "tie0" "tie1" n a ↔ NodeSpec r bbs "tie_0" "tie_1" (tieMap n) a := by
@@ -89,37 +90,43 @@ theorem nodeSpec_rename (h : Restricted r bbs) {n : Name} {a : Option String × 
     have e : tieMap "tie0" = "tie_0" := rfl
     rw [e]
     constructor
-    · rintro (⟨t, ht, _⟩ | ⟨_, ha, hc⟩ | ⟨hc, _⟩)
+    · rintro (⟨t, ht, _⟩ | ⟨_, ha, hc⟩ | ⟨hc, _⟩ | ⟨hfl, _⟩)
       · exact absurd (defTy_not_tie hrl ht) (by decide)
       · exact Or.inr (Or.inl ⟨rfl, ha, hc⟩)
       · exact absurd hc (by decide)
-    · rintro (⟨t, ht, _⟩ | ⟨_, ha, hc⟩ | ⟨hc, _⟩)
+      · exact absurd (floating_plain h.stmts hfl).2.2.2.2 (by decide)
+    · rintro (⟨t, ht, _⟩ | ⟨_, ha, hc⟩ | ⟨hc, _⟩ | ⟨hfl, _⟩)
       · exact absurd (defTy_not_tie hrl ht) (by decide)
       · exact Or.inr (Or.inl ⟨rfl, ha, hc⟩)
       · exact absurd hc (by decide)
+      · exact absurd (floating_plain h.stmts hfl).2.2.2.2 (by decide)
   by_cases h1 : n = "tie1"
   · subst h1
     have e : tieMap "tie1" = "tie_1" := rfl
     rw [e]
     constructor
-    · rintro (⟨t, ht, _⟩ | ⟨hc, _⟩ | ⟨_, ha, hc⟩)
+    · rintro (⟨t, ht, _⟩ | ⟨hc, _⟩ | ⟨_, ha, hc⟩ | ⟨hfl, _⟩)
       · exact absurd (defTy_not_tie hrl ht) (by decide)
       · exact absurd hc (by decide)
-      · exact Or.inr (Or.inr ⟨rfl, ha, hc⟩)
-    · rintro (⟨t, ht, _⟩ | ⟨hc, _⟩ | ⟨_, ha, hc⟩)
+      · exact Or.inr (Or.inr (Or.inl ⟨rfl, ha, hc⟩))
+      · exact absurd (floating_plain h.stmts hfl).2.2.2.2 (by decide)
+    · rintro (⟨t, ht, _⟩ | ⟨hc, _⟩ | ⟨_, ha, hc⟩ | ⟨hfl, _⟩)
       · exact absurd (defTy_not_tie hrl ht) (by decide)
       · exact absurd hc (by decide)
-      · exact Or.inr (Or.inr ⟨rfl, ha, hc⟩)
+      · exact Or.inr (Or.inr (Or.inl ⟨rfl, ha, hc⟩))
+      · exact absurd (floating_plain h.stmts hfl).2.2.2.2 (by decide)
   rw [tieMap_of_ne h0 h1]
   constructor
-  · rintro (hd | ⟨hc, _⟩ | ⟨hc, _⟩)
+  · rintro (hd | ⟨hc, _⟩ | ⟨hc, _⟩ | hfl)
     · exact Or.inl hd
     · exact absurd hc h0
     · exact absurd hc h1
-  · rintro (hd | ⟨hc, _⟩ | ⟨hc, _⟩)
+    · exact Or.inr (Or.inr (Or.inr hfl))
+  · rintro (hd | ⟨hc, _⟩ | ⟨hc, _⟩ | hfl)
     · exact Or.inl hd
     · exact absurd hc hn.1
     · exact absurd hc hn.2
+    · exact Or.inr (Or.inr (Or.inr hfl))
 
 variable {cf cv : Circuit}
 
@@ -252,9 +259,10 @@ theorem spec_inputs (h : Restricted r bbs) {t0 t1 : Name} {c : Circuit} (hs : Sp
       rw [hpt] at hty hv
       have ht : t = "input" := by simpa using hty
       subst ht
-      rcases (hs.node _ _).1 hv with ⟨t, ht, e⟩ | ⟨_, e, _⟩ | ⟨_, e, _⟩
+      rcases (hs.node _ _).1 hv with ⟨t, ht, e⟩ | ⟨_, e, _⟩ | ⟨_, e, _⟩ | ⟨_, e⟩
       · injection e with e1 _; injection e1 with e1; subst e1
         exact (defTy_input h).1 ht
+      · injection e with e1 _; injection e1 with e1; exact absurd e1 (by decide)
       · injection e with e1 _; injection e1 with e1; exact absurd e1 (by decide)
       · injection e with e1 _; injection e1 with e1; exact absurd e1 (by decide)
   · intro hx
@@ -276,9 +284,10 @@ theorem spec_outputs (h : Restricted r bbs) {t0 t1 : Name} {c : Circuit} (hs : S
     obtain ⟨hp, ho⟩ := hp
     have hv := view_of_mem hs.wf.nodup hp
     rw [ho] at hv
-    rcases (hs.node _ _).1 hv with ⟨t, ht, e⟩ | ⟨_, e, _⟩ | ⟨_, e, _⟩
+    rcases (hs.node _ _).1 hv with ⟨t, ht, e⟩ | ⟨_, e, _⟩ | ⟨_, e, _⟩ | ⟨_, e⟩
     · injection e with _ e2
       exact of_decide_eq_true e2.symm
+    · injection e with _ e2; cases e2
     · injection e with _ e2; cases e2
     · injection e with _ e2; cases e2
   · intro hx
@@ -339,9 +348,10 @@ theorem spec_types (h : Restricted r bbs) {t0 t1 : Name} {c : Circuit} (hs : Spe
     rw [ha] at ht
     have hv : view c n = some (some t, a.out.getD false) := by
       unfold view; rw [ha]; simp only [Option.map_some]; rw [show a.ty = some t from ht]
-    rcases (hs.node _ _).1 hv with ⟨t', ht', e⟩ | ⟨_, e, _⟩ | ⟨_, e, _⟩
+    rcases (hs.node _ _).1 hv with ⟨t', ht', e⟩ | ⟨_, e, _⟩ | ⟨_, e, _⟩ | ⟨_, e⟩
     · injection e with e1 _; injection e1 with e1; subst e1
       exact defTy_supported (RL.of_restricted h) ht'
+    · injection e with e1 _; injection e1 with e1; subst e1; decide
     · injection e with e1 _; injection e1 with e1; subst e1; decide
     · injection e with e1 _; injection e1 with e1; subst e1; decide
 
